@@ -10,6 +10,7 @@ from agilerl.algorithms.ddpg import DDPG
 from agilerl.algorithms.td3 import TD3
 
 from ..core import HarnessError
+from ..rand import seeded
 from . import c14_common as cm
 
 ALGOS = {"DDPG": DDPG, "TD3": TD3}
@@ -48,8 +49,7 @@ _AGENTS = {}
 def build(algo, sid, kind, vdim, ou, expl):
     key = (algo, sid, kind, vdim, ou, expl)
     if key not in _AGENTS:
-        with torch.random.fork_rng():
-            torch.manual_seed(0)
+        with seeded(0):
             _AGENTS[key] = ALGOS[algo](cm.obs_space(kind), cm.action_space(sid), O_U_noise=ou, expl_noise=expl, vect_noise_dim=vdim,
                                        net_config=cm.net_config(kind))
     return _AGENTS[key]
